@@ -38,15 +38,19 @@ class Multipart(Codec):
 			if not part.startswith(b'\r\n'):
 				raise DecodeError(_(u'Invalid boundary end: %r'), part[:2].decode('ISO8859-1'))
 			part = part[2:]
-			headers, separator, content = part.partition(b'\r\n\r\n')
-			if not separator:
-				raise DecodeError(_(u'Multipart does not contain CRLF header separator'))
+			if part.startswith(b'\r\n'):  # a body part without header fields (RFC 2046 Section 5.1.1)
+				headers, content = b'', part[2:]
+			else:
+				headers, separator, content = part.partition(b'\r\n\r\n')
+				if not separator:
+					raise DecodeError(_(u'Multipart does not contain CRLF header separator'))
 			if not content.endswith(b'\r\n'):
 				raise DecodeError(_(u'Multipart does not end with CRLF: %r'), content[-2:].decode('ISO8859-1'))
 			content = content[:-2]
 			body = Body()
 			body.headers.clear()
-			body.headers.parse(headers)
+			if headers:
+				body.headers.parse(headers)
 			body.headers.setdefault('Content-Type', cls.default_content_type)
 			body.parse(content)
 			multiparts.append(body)
